@@ -40,6 +40,9 @@ type Billet struct {
 
 	root Node
 	mode TrieMode
+	// keepNodes disables collapsing of traversed nodes (used when traversing
+	// nodes that belong to a Trie, which may be not flushed yet).
+	keepNodes bool
 }
 
 // NewBillet returns a new billet for MPT trie restoring. It accepts a MemCachedStore
@@ -333,6 +336,9 @@ func (b *Billet) traverse(curr Node, path, from []byte, process func(pathToNode 
 }
 
 func (b *Billet) tryCollapseLeaf(curr *LeafNode) Node {
+	if b.keepNodes {
+		return curr
+	}
 	// Leaf can always be collapsed.
 	res := NewHashNode(curr.Hash())
 	res.Collapsed = true
@@ -340,6 +346,9 @@ func (b *Billet) tryCollapseLeaf(curr *LeafNode) Node {
 }
 
 func (b *Billet) tryCollapseExtension(curr *ExtensionNode) Node {
+	if b.keepNodes {
+		return curr
+	}
 	if curr.next.Type() != HashT || !curr.next.(*HashNode).Collapsed {
 		return curr
 	}
@@ -349,6 +358,9 @@ func (b *Billet) tryCollapseExtension(curr *ExtensionNode) Node {
 }
 
 func (b *Billet) tryCollapseBranch(curr *BranchNode) Node {
+	if b.keepNodes {
+		return curr
+	}
 	canCollapse := true
 	for i := range childrenCount {
 		if curr.Children[i].Type() == EmptyT {
